@@ -15,6 +15,8 @@
      kick (C06)    reply, closed, banned (address listed in the re-loaded ban file)
                    pclosed (a protected bystander's connection was closed)
      rt (C16)      aload, bkeys, ball, cmem, cform, ckeys, creload, dauth, dwire (see harness/fam/authz/rt.go)
+                   oauth, owire, onwire: the same as dauth, dwire, nwire for a second session logged in the 1.2.3 way
+     multi (C06)   editreply, reply, sclosed, banned, mem, disk (see MultiProblems)
      upd (C16)     reply, lwire, n354, uwire, dauth, disk: a live session whose account an administrator changes
 
    The line is applied to the model with the same action (Authz!Apply) the model check uses and the model's
@@ -66,6 +68,8 @@ Fix(e) ==
                            third |-> e.third, pacc |-> SeqToSet(e.pacc), shared |-> e.shared]
     [] e.op = "rt"     -> [op |-> "rt", S |-> SeqToSet(e.S)]
     [] e.op = "upd"    -> [op |-> "upd", via |-> e.via, S |-> SeqToSet(e.S), old |-> SeqToSet(e.old)]
+    [] e.op = "multi"  -> [op |-> "multi", kind |-> e.kind, edit |-> e.edit, n |-> e.n, k |-> e.k, a0 |-> SeqToSet(e.a0),
+                           a1 |-> SeqToSet(e.a1), ban |-> e.ban, via |-> e.via, want |-> SeqToSet(e.want)]
     [] OTHER -> [op |-> "unknown"]
 
 P(kind, prop, what, detail) == [kind |-> kind, prop |-> prop, what |-> what, detail |-> detail]
@@ -158,6 +162,8 @@ RtProblems(e, s) ==
       cR == FromBytes(e.creload)
       dA == SeqToSet(e.dauth)
       dW == IF Len(e.dwire) = 8 THEN FromBytes(e.dwire) ELSE {-1}
+      oA == SeqToSet(e.oauth)
+      oW == IF Len(e.owire) = 8 THEN FromBytes(e.owire) ELSE {-1}
       V(what, got, want) == IF got # want THEN <<P("VIOL", "C16", what, Diff(got, want))>> ELSE <<>>
       D(what, got, want) == IF got # want THEN <<P("DRIFT", "C16", what, Diff(got, want))>> ELSE <<>>
   IN
@@ -173,8 +179,38 @@ RtProblems(e, s) ==
   \o D("undefined bits after legacy load", cM \ Defined, S \ Defined)
   \o D("undefined bits in authorization", dA \ Defined, S \ Defined)
   \o (IF e.cform # "map" \/ e.bform # "map" THEN <<P("DRIFT", "C16", "account file not in named form", [b |-> e.bform, c |-> e.cform])>> ELSE <<>>)
+  \o V("authorize (1.2.3-style login)", oA \cap Defined, SD)       \* the same for a session logged in the old way
+  \o V("wire (1.2.3-style login)", oW \cap Defined, SD)
+  \o V("wire-vs-authorize (1.2.3-style login)", oW, oA)
+  \o D("undefined bits in authorization (1.2.3-style login)", oA \ Defined, S \ Defined)
+  \o (IF e.onwire # 1 THEN <<P("DRIFT", "C16", "user-access transactions at a 1.2.3-style login", [n |-> e.onwire])>> ELSE <<>>)
   \o (IF e.nwire # 1 THEN <<P("DRIFT", "C16", "user-access transactions at login", [n |-> e.nwire])>> ELSE <<>>)
   \o (IF ToBytes(S) # e.bytes THEN <<P("DRIFT", "C16", "script bytes are not ToBytes(S)", [b |-> e.bytes])>> ELSE <<>>)
+
+(* several sessions of one account, the account is edited, then session k is kicked / creates an account.
+   sclosed: per session, whether its connection was closed; banned: the target session's address is in the re-loaded
+   ban file; mem / disk as for create; editreply: the administrator's reply to the edit. *)
+MultiProblems(e, s, mrep, maccts) ==
+  LET which == IF s.k = 1 THEN "first-session" ELSE "later-session"
+      d == [kind |-> s.kind, edit |-> s.edit, n |-> s.n, k |-> s.k, session |-> which, a0 |-> s.a0, a1 |-> s.a1, ban |-> s.ban,
+            via |-> s.via, want |-> s.want, reply |-> e.reply, sclosed |-> e.sclosed, banned |-> e.banned,
+            mem |-> IF Len(e.mem) = 8 THEN FromBytes(e.mem) ELSE {-1}, disk |-> IF Len(e.disk) = 8 THEN FromBytes(e.disk) ELSE {-1}]
+      anyClosed == \E i \in DOMAIN e.sclosed : e.sclosed[i]
+      inMem == Len(e.mem) = 8
+      onDisk == Len(e.disk) = 8
+      memS == IF inMem THEN FromBytes(e.mem) ELSE {}
+      diskS == IF onDisk THEN FromBytes(e.disk) ELSE {}
+  IN
+  IF e.editreply # "ok"
+    THEN <<P("DRIFT", "C06", "the account edit did not run as intended", d)>>
+  ELSE IF s.kind = "kick" THEN
+       (IF 23 \in s.a1 /\ anyClosed THEN <<P("VIOL", "C06", "protected-session-disconnected-after-edit", d)>> ELSE <<>>)
+       \o (IF 23 \in s.a1 /\ e.banned THEN <<P("VIOL", "C06", "protected-session-banned-after-edit", d)>> ELSE <<>>)
+       \o (IF 23 \notin s.a1 /\ ~e.sclosed[s.k] THEN <<P("DRIFT", "C06", "unprotected session not disconnected", d)>> ELSE <<>>)
+  ELSE
+       (IF inMem /\ ~(memS \subseteq s.a1) THEN <<P("VIOL", "C06", "amplified-in-memory-after-edit", [d EXCEPT !.mem = memS \ s.a1])>> ELSE <<>>)
+       \o (IF onDisk /\ ~(diskS \subseteq s.a1) THEN <<P("VIOL", "C06", "amplified-on-disk-after-edit", [d EXCEPT !.disk = diskS \ s.a1])>> ELSE <<>>)
+       \o (IF ("newacct" \in DOMAIN maccts) /\ (~inMem \/ ~onDisk) THEN <<P("DRIFT", "C06", "permitted creation did not happen", d)>> ELSE <<>>)
 
 (* a live session's account is changed by an administrator *)
 UpdProblems(e, s) ==
@@ -227,6 +263,7 @@ ApplyEv ==
                               [] s.op = "kick"   -> KickProblems(e, s, live', banned')
                               [] s.op = "rt"     -> RtProblems(e, s)
                               [] s.op = "upd"    -> UpdProblems(e, s)
+                              [] s.op = "multi"  -> MultiProblems(e, s, rep', accts')
                IN \A i \in DOMAIN probs : Report(probs[i], e)
   /\ ph' = "reset" /\ l' = l + 1
   /\ TLCSet(1, l')
